@@ -145,6 +145,8 @@ def run_exhaustive(case, ctx, mon):
 def gen_cases(ctx):
     rng = ctx.rng("cases")
     yield from gen_exhaustive(rng, ctx)
+    for rep in range(2 if ctx.quick else 6):
+        yield {"type": "threads", "threads": 8, "adds": 1500, "seed": int(rng.integers(0, 2**31))}
     yield H.zipf_case(rng, ctx)
     # scripted: an all-NUL key holding 97% of the stream (a packed integer 0) must be reported first
     yield {"type": "history", "cfg": {"kind": "hh", "width": 2, "depth": 2, "max_key_len": 4}, "n": 1,
@@ -164,7 +166,50 @@ def run_zipf(case, ctx, mon):
     mon.nontrivial(n > 0)
 
 
+def run_threads(case, ctx, mon):
+    """Several Python threads add to ONE heavy-hitter sketch, each its own key with private cells: afterwards every key is
+    reported with exactly its count (upper bound of C03 and lower bound of C04 coincide) and n_added() is the total."""
+    import threading
+
+    cfg = {"kind": "hh", "width": 64, "depth": 2, "max_key_len": 8}
+    s = state.make(cfg)
+    pr = H.prober(cfg)
+    rng = __import__("numpy").random.default_rng(case["seed"])
+    keys, used = [], [set(), set()]
+    while len(keys) < case["threads"]:
+        k = bytes(rng.integers(1, 256, 6, dtype="uint8"))
+        c = pr.cells(k)
+        if c[0] not in used[0] and c[1] not in used[1]:
+            used[0].add(c[0])
+            used[1].add(c[1])
+            keys.append(k)
+    n_adds = case["adds"]
+    barrier = threading.Barrier(len(keys))
+
+    def work(k):
+        barrier.wait()
+        for i in range(n_adds):
+            s.add(k, 1)
+            if i % 50 == 0:
+                s[k]
+
+    ts = [threading.Thread(target=work, args=(k,)) for k in keys]
+    for t in ts:
+        t.start()
+    for t in ts:
+        t.join()
+    for k in keys:
+        mon.check(int(s[k]) == n_adds, "threads:key-with-private-cells-counted-exactly", key=hx(k), got=int(s[k]), want=n_adds)
+    mon.check(int(s.n_added()) == n_adds * len(keys), "threads:n_added==total", got=int(s.n_added()), want=n_adds * len(keys))
+    got = {bytes(a): int(c) for a, c in s.query(10**9, 1)}
+    mon.check(got == {k: n_adds for k in keys}, "threads:query-reports-every-key-exactly", got_n=len(got), want_n=len(keys))
+    mon.count("thread_stress_cases")
+    mon.nontrivial(True)
+
+
 def run_case(case, ctx, mon):
+    if case["type"] == "threads":
+        return run_threads(case, ctx, mon)
     if case["type"] == "zipf":
         return run_zipf(case, ctx, mon)
     if case["type"] == "history":
